@@ -4,6 +4,7 @@ Property theorems and non-vacuity examples only; helper lemmas are in Lemmas/Tri
 -/
 import StyluaModel.Lemmas.Trivia
 import StyluaModel.Lemmas.SortReq
+import StyluaModel.Lemmas.Eof
 
 namespace StyluaModel.C03
 open StyluaModel.Trivia StyluaModel.TriviaLemmas StyluaModel.StrLit
@@ -62,6 +63,17 @@ theorem C03_sort_perm (v : SortReq.Variant) (enabled : Bool) (items : List SortR
   · have := SortLemmas.sortParts_perm v false (SortReq.partition items)
     rwa [SortLemmas.partition_flat] at this
   · exact List.Perm.refl _
+
+/-- **comments at the end of the file** all survive, in order, each with its formatted text -/
+theorem C03_eof_comments (eol : List Char) (lead : List Triv) (o : List Out)
+    (h : Eof.fmtEof eol true lead = some o) :
+    commentsOut o = (commentsIn lead).map (fun c => (c.1, fmtText eol c.1 c.2)) := by
+  simp only [Eof.fmtEof, Bool.not_true, Bool.false_eq_true, if_false, Option.some.injEq] at h
+  rw [← C03_load eol .leading lead]
+  split at h
+  · rename_i hall
+    rw [← h, EofLemmas.commentsOut_of_allWs _ hall]; rfl
+  · rw [← h, EofLemmas.commentsOut_append, EofLemmas.commentsOut_popWs]; simp [commentsOut]
 
 /-! ## non-vacuity -/
 example : commentsOut (load ['\n'] .leading
